@@ -304,3 +304,57 @@ v("c22-missing-column-silent", "C22", DS,
 v("c22-twin-switch-var", "C22", DS,
   "    def check_return(self, *, fname: str, return_value) -> None:\n        if not SchemaCheckSwitch().is_on():\n            return\n",
   "    def check_return(self, *, fname: str, return_value) -> None:\n        if SchemaCheckSwitch().is_on() is False:\n            return\n", expect="silent")
+
+# ---------------------------------------------------------------- C09
+SM = "sql_model.py"
+PB = "pandas_base.py"
+v("c09-groupby-filtered-by-using", "C09", SM,
+  "            group_terms = [self.quote_identifier(c) for c in project_node.group_by]",
+  "            group_terms = [self.quote_identifier(c) for c in project_node.group_by if c in using]")
+v("c09-terms-filtered-by-using", "C09", SM,
+  "        terms.update({g: None for g in project_node.group_by})", "        terms.update({g: None for g in project_node.group_by if g in using})")
+v("c09-no-emptiness-guard", "C09", SM,
+  "        if (len(project_node.group_by) < 1) and (\n            len(set(using).intersection(project_node.ops.keys())) < 1\n        ):\n            # an un-grouped project must keep an aggregation to return exactly one row\n            using = OrderedSet(using).union([list(project_node.ops.keys())[0]])\n",
+  "")
+v("c09-emitter-star-on-empty", "C09", SM,
+  "            if (columns is None) or (len(columns) < 1):\n                # nothing specific requested", "            if columns is None:\n                # nothing specific requested")
+v("c09-pandas-project-dropna-default", "C09", PB,
+  "            res = res.groupby(op.group_by, observed=True, dropna=False)", "            res = res.groupby(op.group_by, observed=True)")
+v("c09-pandas-window-dropna-true", "C09", PB,
+  "                opframe = subframe.groupby(op.partition_by, observed=True, dropna=False)", "                opframe = subframe.groupby(op.partition_by, observed=True, dropna=True)")
+v("c09-polars-no-empty-row", "C09", "polars_model.py",
+  "            if res.shape[0] <= 0:\n                # make an all None frame", "            if False:\n                # make an all None frame")
+v("c09-twin-rename-group-terms", "C09", SM,
+  "            group_terms = [self.quote_identifier(c) for c in project_node.group_by]\n            suffix = [\"GROUP BY\"] + self._indent_and_sep_terms(\n                group_terms,",
+  "            gterms = [self.quote_identifier(gc) for gc in project_node.group_by]\n            suffix = [\"GROUP BY\"] + self._indent_and_sep_terms(\n                gterms,", expect="silent")
+
+# ---------------------------------------------------------------- C04
+v("c04-merge-keeps-old-ops_key", "C04", SM,
+  "                # the merged step no longer computes what its original key describes\n                subsql.ops_key = f\"extend({extend_node}, {subsql.terms.keys()})\"\n", "")
+v("c04-window-vars-without-order_by", "C04", SM,
+  "                window_vars.update(extend_node.order_by)\n", "")
+v("c04-merge-ignores-suffix", "C04", SM,
+  "            and (subsql.declared_term_dependencies is not None)\n            and ((subsql.suffix is None) or (len(subsql.suffix) == 0))\n",
+  "            and (subsql.declared_term_dependencies is not None)\n")
+v("c04-contention-drops-needs", "C04", SM,
+  "                set(our_non_trivial_terms).intersection(sub_needs),\n", "")
+v("c04-cte-key-without-columns", "C04", "near_sql.py",
+  "                if self.columns is not None:\n                    ops_key = f\"{ops_key}_{list(self.columns)}\"\n", "")
+v("c04-cte-key-none-as-text", "C04", "near_sql.py",
+  "            ops_key = self.near_sql.ops_key  # None: step has no reliable identity, never share it\n            if ops_key is not None:\n                ops_key = f\"{ops_key}\"\n                if self.columns is not None:\n                    ops_key = f\"{ops_key}_{list(self.columns)}\"\n",
+  "            ops_key = f\"{self.near_sql.ops_key}\"\n            if self.columns is not None:\n                ops_key = f\"{ops_key}_{list(self.columns)}\"\n")
+v("c04-unary-rewrap-drops-suffix", "C04", "near_sql.py",
+  "            sub_sql=stub,\n            suffix=self.suffix,\n            annotation=self.annotation,\n            ops_key=self.ops_key,\n        )\n        return SQLWithList(last_step=stubbed_step, previous_steps=sequence)\n\n\nclass NearSQLBinaryStep",
+  "            sub_sql=stub,\n            annotation=self.annotation,\n            ops_key=self.ops_key,\n        )\n        return SQLWithList(last_step=stubbed_step, previous_steps=sequence)\n\n\nclass NearSQLBinaryStep")
+v("c04-binary-rewrap-wrong-joiner", "C04", "near_sql.py", "            joiner=self.joiner,\n            sub_sql2=stub2,", "            joiner=\"UNION ALL\",\n            sub_sql2=stub2,")
+v("c04-stub-container-drops-public-name", "C04", "near_sql.py",
+  "                        near_sql=retrieved_cte,\n                        columns=self.columns,\n                        force_sql=self.force_sql,\n                        public_name=self.public_name,\n                        public_name_quoted=self.public_name_quoted,",
+  "                        near_sql=retrieved_cte,\n                        columns=self.columns,\n                        force_sql=self.force_sql,")
+v("c04-annotate-changes-terms", "C04", SM,
+  "            clean_anno = _clean_annotation(near_sql.annotation)\n            if clean_anno is not None:\n                sql_start = \"SELECT  -- \" + clean_anno\n        sql = (\n            [sql_start]\n            + self._indent_and_sep_terms(\n                terms_strs, sql_format_options=sql_format_options\n            )\n            + [\"FROM\"]\n            + [\n                sql_format_options.sql_indent + si\n                for si in near_sql.sub_sql.convert_subsql(",
+  "            clean_anno = _clean_annotation(near_sql.annotation)\n            terms_strs = sorted(terms_strs)\n            if clean_anno is not None:\n                sql_start = \"SELECT  -- \" + clean_anno\n        sql = (\n            [sql_start]\n            + self._indent_and_sep_terms(\n                terms_strs, sql_format_options=sql_format_options\n            )\n            + [\"FROM\"]\n            + [\n                sql_format_options.sql_indent + si\n                for si in near_sql.sub_sql.convert_subsql(")
+v("c04-initial-commas-drops-last", "C04", SM,
+  "                + terms[i]\n                for i in range(n)\n            ]\n        return [", "                + terms[i]\n                for i in range(n - 1)\n            ]\n        return [")
+v("c04-indent-not-whitespace", "C04", "sql_format_options.py", "        assert len(sql_indent.strip()) == 0\n", "")
+v("c04-twin-key-join", "C04", "near_sql.py",
+  "                    ops_key = f\"{ops_key}_{list(self.columns)}\"", "                    ops_key = ops_key + \"_\" + str(list(self.columns))", expect="silent")
